@@ -17,6 +17,7 @@ MUT = "src/allmydata/storage/mutable.py"
 CLIENT = "src/allmydata/client.py"
 SERVER = "src/allmydata/storage/server.py"
 CRAWLER = "src/allmydata/storage/crawler.py"
+TF = "src/allmydata/util/time_format.py"
 
 BUG = "                age_limit = original_expiration_time\n"
 FIX = "                age_limit = original_expiration_time - grant_renew_time\n"
@@ -369,6 +370,68 @@ MUTANTS = [
     mk("benign-enumeration-skips-empty-slots-with-continue", MUT,
        "                if data is not None:\n                    yield i,data\n",
        "                if data is None:\n                    continue\n                yield i,data\n", None),
+    # ---- C26.12 the policy keywords receive the parsers' own values
+    mk("cutoff-shifted-to-local-midnight-in-client", CLIENT,
+       "            cutoff_date = parse_date(cutoff_date)\n",
+       "            cutoff_date = parse_date(cutoff_date) + time.timezone\n", "C26.12",
+       note="C26-E's effect, produced at the call site instead of inside parse_date"),
+    mk("cutoff-parsed-by-a-local-helper", CLIENT,
+       "            cutoff_date = parse_date(cutoff_date)\n",
+       "            cutoff_date = self._parse_cutoff(cutoff_date)\n", "C26.12",
+       edits=[(CLIENT, "    def init_storage(self, announceable_storage_servers):\n",
+               "    def _parse_cutoff(self, text):\n        return int(time.mktime(time.strptime(text, \"%Y-%m-%d\")))\n\n"
+               "    def init_storage(self, announceable_storage_servers):\n")]),
+    mk("cutoff-parser-name-rebound-in-client", CLIENT,
+       "from allmydata.util.time_format import parse_duration, parse_date\n",
+       "from allmydata.util.time_format import parse_duration\n\n"
+       "def parse_date(s):\n    return int(time.mktime(time.strptime(s, \"%Y-%m-%d\")))\n", "C26.12"),
+    mk("override-duration-scaled-in-client", CLIENT,
+       "            o_l_d = parse_duration(o_l_d)\n", "            o_l_d = parse_duration(o_l_d) * 1000\n", "C26.12"),
+    mk("cutoff-parser-applied-to-the-mode-text", CLIENT,
+       "            cutoff_date = parse_date(cutoff_date)\n", "            cutoff_date = parse_date(mode)\n", ["C26.12", "C26.5"]),
+    mk("benign-cutoff-parsed-in-one-expression", CLIENT,
+       "            cutoff_date = self.config.get_config(\"storage\", \"expire.cutoff_date\")\n            cutoff_date = parse_date(cutoff_date)\n",
+       "            cutoff_date = int(parse_date(self.config.get_config(\"storage\", \"expire.cutoff_date\")))\n", None),
+    mk("benign-cutoff-text-in-its-own-local", CLIENT,
+       "            cutoff_date = self.config.get_config(\"storage\", \"expire.cutoff_date\")\n            cutoff_date = parse_date(cutoff_date)\n",
+       "            cutoff_text = self.config.get_config(\"storage\", \"expire.cutoff_date\")\n            cutoff_date = parse_date(cutoff_text)\n", None),
+    mk("benign-parser-called-through-the-module", CLIENT,
+       "            cutoff_date = parse_date(cutoff_date)\n", "            cutoff_date = time_format.parse_date(cutoff_date)\n", None,
+       edits=[(CLIENT, "from allmydata.util.time_format import parse_duration, parse_date\n",
+               "from allmydata.util.time_format import parse_duration, parse_date\nfrom allmydata.util import time_format\n")]),
+    # ---- C26.13 (adopted from C48.5/.6/.8) the cutoff is midnight UTC of the configured day
+    mk("cutoff-is-local-midnight-strptime-timestamp", TF,
+       "    return int(iso_utc_time_to_seconds(s + \"T00:00:00\"))\n",
+       "    return int(datetime.datetime.strptime(s, \"%Y-%m-%d\").timestamp())\n", ["C26.13", "C26.14"],
+       note="seeded C26-E"),
+    mk("cutoff-is-local-midnight-mktime", TF,
+       "    return int(iso_utc_time_to_seconds(s + \"T00:00:00\"))\n",
+       "    return int(time.mktime(time.strptime(s, \"%Y-%m-%d\")))\n", ["C26.13", "C26.14"]),
+    mk("cutoff-is-noon-of-the-day", TF,
+       "    return int(iso_utc_time_to_seconds(s + \"T00:00:00\"))\n",
+       "    return int(iso_utc_time_to_seconds(s + \"T12:00:00\"))\n", "C26.13"),
+    mk("cutoff-accepts-trailing-text", TF,
+       "    if not re.fullmatch(r\"\\d{4}-\\d{2}-\\d{2}\", s):\n", "    if not re.match(r\"\\d{4}-\\d{2}-\\d{2}\", s):\n", "C26.13"),
+    mk("benign-parse-date-hoists-the-seconds", TF,
+       "    return int(iso_utc_time_to_seconds(s + \"T00:00:00\"))\n",
+       "    seconds = iso_utc_time_to_seconds(s + \"T00:00:00\")\n    return int(seconds)\n", None),
+    # ---- C26.14 nothing time-zone dependent feeds the cutoff
+    mk("iso-seconds-converted-with-mktime", TF,
+       "    return calendar.timegm( (year, month, day, hour, minute, second, 0, 1, 0) ) + subsecfloat\n",
+       "    return time.mktime( (year, month, day, hour, minute, second, 0, 1, 0) ) + subsecfloat\n", "C26.14",
+       note="C26.13.5 alone answers ANALYSIS-ERROR here (its timegm anchor is gone)"),
+    mk("iso-seconds-corrected-by-the-local-offset", TF,
+       "    return calendar.timegm( (year, month, day, hour, minute, second, 0, 1, 0) ) + subsecfloat\n",
+       "    return calendar.timegm( (year, month, day, hour, minute, second, 0, 1, 0) ) + time.timezone + subsecfloat\n",
+       "C26.14"),
+    mk("cutoff-through-naive-datetime-in-a-local", TF,
+       "    return int(iso_utc_time_to_seconds(s + \"T00:00:00\"))\n",
+       "    day = datetime.datetime(int(s[:4]), int(s[5:7]), int(s[8:10]))\n    return int(day.timestamp())\n",
+       ["C26.14", "C26.13"]),
+    mk("benign-iso-seconds-tuple-in-a-local", TF,
+       "    return calendar.timegm( (year, month, day, hour, minute, second, 0, 1, 0) ) + subsecfloat\n",
+       "    fields = (year, month, day, hour, minute, second, 0, 1, 0)\n    whole = calendar.timegm(fields)\n    return whole + subsecfloat\n",
+       None),
     # ---- vanished anchors
     mk("vanish-process-share", EXP, "    def process_share(self, sharefilename):", "    def process_shareX(self, sharefilename):",
        "ANALYSIS-ERROR"),
